@@ -22,6 +22,8 @@ type Rec struct {
 	OnStage func(stage string)
 }
 
+var recHookObj = new(int)
+
 // NewRec creates a recording plugin.
 func NewRec(name string, trace *[]string) *Rec {
 	return &Rec{name: name, Trace: trace, Veto: map[string]*erpc.Status{}, Count: map[string]int{}}
@@ -33,6 +35,9 @@ func (r *Rec) hit(stage string, seq int32) *erpc.Status {
 	if r.Only != nil && !r.Only[stage] {
 		return nil
 	}
+	// a hook is user code: it may be descheduled like any other, and the order of hook events of different
+	// goroutines is what the trace oracles compare, so each hook is a scheduling point on one common object
+	vsched.Point(vsched.KOther, recHookObj, nil)
 	r.Count[stage]++
 	if r.Trace != nil {
 		*r.Trace = append(*r.Trace, fmt.Sprintf("%s.%s#%d", r.name, stage, seq))
